@@ -489,9 +489,11 @@ ares_status_t ares_sconfig_append(const ares_channel_t   *channel,
 fail:
   ares_free(s);
 
-  /* Don't hand back an empty list created by this very call when reporting an
-   * error, callers don't expect to own anything in that case */
-  if (created && status != ARES_SUCCESS) {
+  /* Don't hand back an empty list created by this very call: on error callers
+   * don't expect to own anything, and when the entry was silently skipped an
+   * empty list would be mistaken for "the configuration lists no servers" and
+   * wipe the servers of the channel. */
+  if (created) {
     ares_llist_destroy(*sconfig);
     *sconfig = NULL;
   }
